@@ -13,9 +13,17 @@ EXTENDS Splitter, TLC, Json, IOUtils
 Trace == ndJsonDeserialize(IOEnv.TRACE_FILE)
 VARIABLE l
 
+MayRefuse(fields, t) ==
+    \/ \E i \in DOMAIN fields : ~ValidField(fields[i])
+    \/ \E i \in DOMAIN fields : LET f == fields[i] IN
+          IsCoil(f) = WantsCoils(t) /\ (FieldSize(f) > Limit(t) \/ FieldEnd(f) > 65536)
+
 J_split(e) ==
     IF e.outcome = "panic" THEN "panic"
-    ELSE IF e.outcome = "err" THEN "ok"        \* "either returns an error or ..."
+    \* C06: "either returns an error or ...".  C05 quantifies over VALID definitions: there the builder may refuse only
+    \* what it cannot serve - an invalid definition anywhere in the list, or a field that cannot lie in one request
+    ELSE IF e.outcome = "err" THEN
+         (IF IOEnv.VERIF_PROP = "C05" /\ ~MayRefuse(e.fields, e.target) THEN "builder-refused-valid-field-definitions" ELSE "ok")
     ELSE SplitVerdict(e.fields, e.target, e.requests)
 
 Reachable(q, trunc, f) ==
@@ -50,6 +58,8 @@ J_extract(e) ==
 Judge(e) ==
     CASE e.ev = "split"   -> J_split(e)
       [] e.ev = "extract" -> J_extract(e)
+      \* the driver's watchdog: the case was still running (no event for a minute, or the heap beyond 6 GiB)
+      [] e.ev = "runaway" -> "library-call-does-not-return"
       [] OTHER            -> "unknown-event"
 
 Init == l = 1
